@@ -3,6 +3,7 @@ package props
 import (
 	"bytes"
 	"fmt"
+	"io"
 	"runtime"
 	"testing"
 	"unsafe"
@@ -157,6 +158,38 @@ func (tn *tenant) release() *evid.Violation {
 	return viol
 }
 
+// poolSource is an io.Reader whose Read itself uses the shared pool (as a network stack would): before
+// handing out data it takes a few buffers of every small class, poisons them and returns them. A decoder
+// that still looks at a block it has already recycled sees the poison.
+type poolSource struct {
+	inner io.Reader
+}
+
+func (p *poolSource) Read(b []byte) (int, error) {
+	var got [][]byte
+	for c := 0; c <= 17; c++ {
+		for k := 0; k < 2; k++ {
+			x := mcache.Malloc(1 << c)
+			got = append(got, x)
+		}
+	}
+	for _, x := range got {
+		x = x[:cap(x)]
+		for i := 0; i < len(x); i += 61 {
+			x[i] = poisonByte
+		}
+		if len(x) <= 8192 {
+			for i := range x {
+				x[i] = poisonByte
+			}
+		}
+	}
+	for i := len(got) - 1; i >= 0; i-- {
+		mcache.Free(got[i])
+	}
+	return p.inner.Read(b)
+}
+
 func (tn *tenant) step(mode, i int, protected []memRange) *evid.Violation {
 	if v := tn.release(); v != nil {
 		return v
@@ -256,12 +289,14 @@ func checkWriterTenant(c WriterCase, cv *cov) *evid.Violation {
 
 // SkipTenantCase: values decoded through the stream skip decoders, results retained for their documented lifetime.
 type SkipTenantCase struct {
-	Lens    []int        `json:"lens"`              // string lengths of the values (each value is a struct holding one string and an i32)
-	Reader  bool         `json:"reader"`            // true: ReaderSkipDecoder over a plain io.Reader; false: SkipDecoder over a bufiox reader
-	Release []bool       `json:"release,omitempty"` // SkipDecoder: Release the bufiox reader after value i
-	Plan    faultio.Plan `json:"plan"`
-	Tenant  int          `json:"tenant"`
-	Cycle   bool         `json:"cycle,omitempty"` // release the decoder to its pool and fetch a new one between values
+	Lens       []int        `json:"lens"`              // string lengths of the values (each value is a struct holding one string and an i32)
+	Reader     bool         `json:"reader"`            // true: ReaderSkipDecoder over a plain io.Reader; false: SkipDecoder over a bufiox reader
+	Release    []bool       `json:"release,omitempty"` // SkipDecoder: Release the bufiox reader after value i
+	Plan       faultio.Plan `json:"plan"`
+	Tenant     int          `json:"tenant"`
+	Cycle      bool         `json:"cycle,omitempty"`       // release the decoder to its pool and fetch a new one between values
+	PoolSource bool         `json:"pool_source,omitempty"` // the io.Reader itself allocates from the shared pool inside Read
+	Fresh      bool         `json:"fresh,omitempty"`       // ReaderSkipDecoder: a zero-value decoder instead of a pooled one
 }
 
 func checkSkipTenant(c SkipTenantCase, cv *cov) (v *evid.Violation) {
@@ -291,7 +326,17 @@ func checkSkipTenant(c SkipTenantCase, cv *cov) (v *evid.Violation) {
 		plan.ErrAt = len(stream)
 		sr := faultio.NewScriptReader(stream, plan)
 		if c.Reader {
-			rd := thrift.NewReaderSkipDecoder(sr)
+			var src io.Reader = sr
+			if c.PoolSource {
+				src = &poolSource{inner: sr}
+			}
+			rd := thrift.NewReaderSkipDecoder(src)
+			if c.Fresh {
+				// a decoder that has never been used (no retained buffer): every step has to grow
+				rd.Release()
+				rd = &thrift.ReaderSkipDecoder{}
+				rd.Reset(src)
+			}
 			for i := range encs {
 				out, err := rd.Next(ref.STRUCT)
 				if err != nil || !bytes.Equal(out, encs[i]) {
@@ -316,7 +361,7 @@ func checkSkipTenant(c SkipTenantCase, cv *cov) (v *evid.Violation) {
 						v.Msg = fmt.Sprintf("after ReaderSkipDecoder.Release (value %d): %s", i, v.Msg)
 						return
 					}
-					rd = thrift.NewReaderSkipDecoder(sr)
+					rd = thrift.NewReaderSkipDecoder(src)
 				}
 			}
 			rd.Release()
@@ -432,10 +477,10 @@ func genWriterTenantCase(t *rapid.T) WriterCase {
 }
 
 func genSkipTenantCase(t *rapid.T) SkipTenantCase {
-	c := SkipTenantCase{Reader: rapid.Bool().Draw(t, "reader"), Tenant: rapid.IntRange(1, 3).Draw(t, "tenant"), Cycle: rapid.Bool().Draw(t, "cycle")}
+	c := SkipTenantCase{Reader: rapid.Bool().Draw(t, "reader"), Tenant: rapid.IntRange(1, 3).Draw(t, "tenant"), Cycle: rapid.Bool().Draw(t, "cycle"), PoolSource: rapid.Bool().Draw(t, "poolSource"), Fresh: rapid.Bool().Draw(t, "fresh")}
 	n := rapid.IntRange(1, 10).Draw(t, "n")
 	for i := 0; i < n; i++ {
-		c.Lens = append(c.Lens, rapid.SampledFrom([]int{0, 10, 1000, 4090, 5000, 9000, 20000, 70000}).Draw(t, "len"))
+		c.Lens = append(c.Lens, rapid.SampledFrom([]int{0, 10, 1000, 2040, 3000, 4090, 5000, 9000, 20000, 70000}).Draw(t, "len"))
 		c.Release = append(c.Release, rapid.IntRange(0, 3).Draw(t, "rel") == 0)
 	}
 	c.Plan = faultio.Plan{Chunks: []int{rapid.SampledFrom([]int{0, 1000, 4096}).Draw(t, "chunk")}, ErrAt: -1, WithData: rapid.Bool().Draw(t, "wd")}
